@@ -11,6 +11,7 @@ AllSpecials == {"loop", "nat64", "relay", "wrongtr"}
 \*         listen address ("off").
 \* top3:   one listen address, four observed addresses, five connections of five groups: reaches
 \*         more than MaxTop eligible addresses with unequal counts.
+\* race:   three connections (two of one group) for C17_Race.tla (Check/Record split, close interleaving).
 \* groups6: seven connections of five groups, three observed addresses; exhaustive check only.
 Table == [
   groups |-> [locals |-> {"tcp"}, addrs |-> <<"a1", "a2">>, specials |-> AllSpecials,
@@ -25,6 +26,10 @@ Table == [
      localOf  |-> [c1 |-> "udp", c2 |-> "udp", c3 |-> "udp", c4 |-> "udp", c5 |-> "udp"],
      remoteOf |-> [c1 |-> "r1", c2 |-> "r2", c3 |-> "r3", c4 |-> "r4", c5 |-> "r5"],
      groupOf  |-> [r1 |-> "g1", r2 |-> "g2", r3 |-> "g3", r4 |-> "g4", r5 |-> "g5"]],
+  race |-> [locals |-> {"tcp"}, addrs |-> <<"a1", "a2">>, specials |-> {"loop"},
+     localOf  |-> [c1 |-> "tcp", c2 |-> "tcp", c3 |-> "tcp"],
+     remoteOf |-> [c1 |-> "r1", c2 |-> "r2", c3 |-> "r3"],
+     groupOf  |-> [r1 |-> "g1", r2 |-> "g2", r3 |-> "g1"]],
   groups6 |-> [locals |-> {"tcp"}, addrs |-> <<"a1", "a2", "a3">>, specials |-> {"loop", "wrongtr"},
      localOf  |-> [c1 |-> "tcp", c2 |-> "tcp", c3 |-> "tcp", c4 |-> "tcp", c5 |-> "tcp", c6 |-> "tcp", c7 |-> "tcp"],
      remoteOf |-> [c1 |-> "r1", c2 |-> "r2", c3 |-> "r3", c4 |-> "r4", c5 |-> "r5", c6 |-> "r6", c7 |-> "r7"],
